@@ -43,7 +43,7 @@ from typing import Any
 from . import evaluator_gen as g
 from .common import Ctx, python_flags, rat
 
-RULE = ("event schedules (primary samples valid/None/NaN/inf in runs, primary close at any tick, fallback component "
+RULE = ("event schedules (primary samples valid/None/NaN/+inf/-inf in runs, primary close at any tick, fallback component "
         "samples before/with/after the primary sample of the same tick, fallback close, credits of the second term "
         "with lag 0-4) x drive {fetch_next loop, FormulaEngine '#p + #b'} x fallback {fake receiver, real "
         "FallbackFormulaMetricFetcher over 1-2 component channels}; non-trivial = the primary fails at least once "
@@ -245,7 +245,7 @@ async def _run_fullstack(case: dict) -> list:
             for tick in case["script"]:
                 sends = {"m": mockgrid.mock_resampler.send_meter_power, "i": mockgrid.mock_resampler.send_pv_inverter_power}
                 for which in tick["order"]:
-                    await sends[which]([None if v is None else float(v) for v in tick[which]])
+                    await sends[which]([None if v is None else float(v) for v in tick[which]])  # "nan"/"inf"/"-inf" too
                     if tick.get("settle_between", True):
                         await g.settle()
                 mockgrid.mock_resampler.next_ts()
@@ -267,10 +267,10 @@ def oracle_fullstack(ctx: Ctx, case: dict, outs: list) -> None:
         exp: Any = Fraction(0)
         for m in range(n):
             mv, iv = tick["m"][m], tick["i"][m]
-            if mv is not None:
+            if g.is_valid(mv):
                 term: Any = Fraction(mv)
             elif failed[m]:
-                term = Fraction(iv) if iv is not None else Fraction(0)
+                term = Fraction(iv) if g.is_valid(iv) else Fraction(0)
             else:
                 term = None  # start-up: the round of the first failure
             if term is None:
@@ -278,7 +278,7 @@ def oracle_fullstack(ctx: Ctx, case: dict, outs: list) -> None:
             elif exp is not None:
                 exp += term
         for m in range(n):
-            if tick["m"][m] is None:
+            if not g.is_valid(tick["m"][m]):
                 failed[m] = True
         if got != [None if exp is None else rat(exp)]:
             ctx.violation("fullstack", case, {"detail": f"tick {t}: pv_pool.power emitted {got}, expected "
@@ -295,8 +295,9 @@ def gen_fullstack(rng) -> dict:
         for m in range(n):
             if rng.random() < 0.3:
                 mstate[m] = not mstate[m]
-        script.append({"m": [-(m + 1) * 4 if mstate[m] else None for m in range(n)],
-                       "i": [-(m + 1) * 256 - t if rng.random() < 0.8 else None for m in range(n)],
+        bad = [None, None, "nan", "inf", "-inf"]  # every encoding of "no valid value"
+        script.append({"m": [-(m + 1) * 4 if mstate[m] else rng.choice(bad) for m in range(n)],
+                       "i": [-(m + 1) * 256 - t if rng.random() < 0.8 else rng.choice(bad) for m in range(n)],
                        "order": rng.choice(["mi", "im"]), "settle_between": rng.random() < 0.7})
     return {"drive": "pvpool", "meters": n, "script": script}
 
@@ -415,8 +416,11 @@ async def _run_genfb(case: dict) -> dict:
         outs: list = []
         for t in range(case["ticks"]):
             for req, sender in list(subs.values()):
-                v = (None if t in case["missing"].get(str(req.component_id), [])
-                     else genfb_reading(case["topo"], req.component_id, req.metric_id.name, t))
+                if t in case["missing"].get(str(req.component_id), []):
+                    # how the missing reading is encoded: None (default) or the floats "nan" / "inf" / "-inf"
+                    v: Any = case.get("missing_as", {}).get(str(req.component_id))
+                else:
+                    v = genfb_reading(case["topo"], req.component_id, req.metric_id.name, t)
                 await sender.send(Sample(t0 + timedelta(seconds=t), None if v is None else Quantity(float(v))))
             await g.settle()
             got = []
@@ -474,7 +478,9 @@ def gen_genfb(rng) -> dict:
             if rng.random() < 0.3 and b + 1 < ticks:  # a second outage after a recovery
                 ts += list(range(b + 1, ticks))
             missing[str(c)] = ts
-    return {"drive": "genfb", "topo": topo, "formula": formula, "ticks": ticks, "missing": missing}
+    missing_as = {c: rng.choice([None, None, "nan", "inf", "-inf"]) for c in missing}
+    return {"drive": "genfb", "topo": topo, "formula": formula, "ticks": ticks, "missing": missing,
+            "missing_as": missing_as}
 
 
 # ------------------------------------------------------------------------------------------ the model's view
@@ -655,7 +661,7 @@ def gen_case(rng, small: bool = False) -> dict:
     for k in range(n):
         if rng.random() < 0.3:
             state_valid = not state_valid
-        vals.append(1000 + p0 + k if state_valid else rng.choice([None, None, "nan", "inf"]))
+        vals.append(1000 + p0 + k if state_valid else rng.choice([None, None, "nan", "inf", "-inf"]))
     close_at = rng.choice([None, None, rng.randint(0, n)])
     if close_at is not None:
         vals = vals[:close_at]
@@ -672,7 +678,7 @@ def gen_case(rng, small: bool = False) -> dict:
     for t in range(f_lo, f_hi):
         if rng.random() < 0.2:
             fvalid = not fvalid
-        comp = [(2000 + t) if (fvalid or rng.random() < 0.5) else rng.choice([None, "nan"]) for _ in range(max(1, fbk))]
+        comp = [(2000 + t) if (fvalid or rng.random() < 0.5) else rng.choice([None, "nan", "inf", "-inf"]) for _ in range(max(1, fbk))]
         if max(1, fbk) == 2:
             comp[1] = 64 * (t + 40) if g.is_valid(comp[1]) else comp[1]
         f_evs.append(["F", t, comp])
@@ -765,7 +771,7 @@ def check_case(ctx: Ctx, case: dict) -> tuple[dict, dict] | None:
         outs = g.run_async(_run_fullstack(case))
         oracle_fullstack(ctx, case, outs)
         ctx.case(case, tags=["drive:pvpool-fullstack", f"meters:{case['meters']}"],
-                 nontrivial=any(v is None for tick in case["script"] for v in tick["m"]))
+                 nontrivial=any(not g.is_valid(v) for tick in case["script"] for v in tick["m"]))
         return None
     if case["drive"] == "genfb":
         obs = g.run_async(_run_genfb(case))
